@@ -80,6 +80,11 @@ func genC17(seed uint64, run int, tier string) *drv.Plan {
 	if r.Chance(1, 4) {
 		p.Mode = "multi"
 	}
+	if run%350 == 77 {
+		p.Mode = "big-import"
+		p.Steps = nil
+		return p
+	}
 	if r.Chance(1, 5) {
 		// random fault sequences over a whole history: 1-4 faults addressed as
 		// (step, kind, per-mille position among that step's calls of the kind)
@@ -468,9 +473,73 @@ func execC17History(p *drv.Plan) *Out {
 	return out
 }
 
+// execC17BigImport imports a tree of ~21 000 nodes, so that the importer
+// flushes batches asynchronously, with each of its batch writes (and a few of
+// its batch.Set calls) failing in turn.
+func execC17BigImport(p *drv.Plan) *Out {
+	out := &Out{Evals: 1, Probes: map[string]int{"mode.big-import": 1}, Stats: map[string]int{}, Faults: map[string]int{}}
+	out.Sample = "big-import under faults: 10500 keys in two versions, export of version 2, import with every batch write failing in turn"
+	cfg := p.Config
+	cfg.InitVer, cfg.InitMode = 0, ""
+	src := drv.NewWorld(cfg)
+	if err := src.Open(); err != nil {
+		return out
+	}
+	for i := 0; i < 10500; i++ {
+		k := []byte(fmt.Sprintf("big%05d", (i*7919)%10500))
+		v := []byte(fmt.Sprintf("b%d", i))
+		src.Tree.Set(k, v)
+		src.M.Set(k, v)
+		src.T.Set(k, v)
+		if i == 5000 {
+			src.Tree.SaveVersion()
+			src.M.Commit()
+			src.T.Commit()
+		}
+		if i%500 == 0 {
+			src.Universe[string(k)] = true
+		}
+	}
+	src.Tree.SaveVersion()
+	src.M.Commit()
+	src.T.Commit()
+	base := src.Sim.Fork()
+	w := drv.NewWorld(cfg)
+	w.M, w.T = src.M, src.T
+	for k := range src.Universe {
+		w.Universe[k] = true
+	}
+	src.Cleanup()
+	fast := p.Config.Fast
+	step := drv.Step{ID: 424242, Op: "p.import", N: 1, Fast: &fast}
+	var tr drv.Tracer
+	// only the batch writes and a sample of the batch sets are enumerated
+	// (an import of this size makes ~21 000 batch.Set calls)
+	explicit := map[string]bool{}
+	for n := 1; n <= 8; n++ {
+		explicit[fmt.Sprintf("%d/%s/%d", step.ID, sim.KBWrite, n)] = true
+	}
+	for _, n := range []int{1, 9999, 10000, 10001, 20000, 20999} {
+		explicit[fmt.Sprintf("%d/%s/%d", step.ID, sim.KBSet, n)] = true
+	}
+	vs, ev := importUnderFaults(p, w, base, step, tr.Add, explicit, out)
+	out.Violations = append(out.Violations, vs...)
+	out.Evals = ev
+	if ev < 1 {
+		out.Evals = 1
+	}
+	out.Stats["fault_positions"] = ev
+	out.NonTrivial = ev >= 2
+	out.Trace = fmt.Sprintf("%016x", tr.Sum())
+	return out
+}
+
 func execC17(p *drv.Plan) *Out {
 	if p.Mode == "history" {
 		return execC17History(p)
+	}
+	if p.Mode == "big-import" {
+		return execC17BigImport(p)
 	}
 	// split the plan into prefix history and probes
 	var prefix, probes []drv.Step
